@@ -237,6 +237,33 @@ def rule_r3(ctx):
             ctx.r.ok(rid, "every Forwarded element yields exactly one parsed entry", f.loc(it.ast))
         else:
             ctx.r.violation(rid, key_of(f, None, "forwarded-element-skipped"), "an iteration over the raw Forwarded elements can finish without appending to the parsed list: the parsed and the raw list are cut by the same count but no longer line up (a client-supplied hop is selected)", f.loc(it.ast))
+    # every element of the header is parsed (and so validated), the ones left of the trusted window included: the loop
+    # runs over the whole split, the cut to the trusted suffix comes afterwards
+    for it in [x for x in gcf.nodes if x.kind == "iter" and dotted(x.ast.iter) in ("raw_forwarded",)]:
+        src = resolve_locals(f, x.ast.iter) if False else resolve_locals(f, it.ast.iter)
+        if isinstance(src, ast.Call) and isinstance(src.func, ast.Attribute) and src.func.attr == "split":
+            ctx.r.ok(rid, "all Forwarded elements are parsed before the list is cut to the trusted hops", f.loc(it.ast))
+        else:
+            ctx.r.violation(rid, key_of(f, None, "forwarded-parse-window"), "the Forwarded elements that are parsed are `%s`, not the whole header: a malformed element outside the trusted window is never looked at and the request is served instead of being answered with 400" % (norm(src)[:60] if src is not None else "?"), f.loc(it.ast))
+    # host[:port] / addr[:port] splitting: an IPv6 literal is recognised by its *last* character (`[v6]` has no port,
+    # `[v6]:port` has one) - every rsplit(':', 1) of a hop value is guarded by `':' in x` and by x not ending in ']'
+    nsplit = 0
+    for nd, c in find_calls(gcf, lambda c: isinstance(c.func, ast.Attribute) and c.func.attr in ("rsplit", "rpartition") and c.args and isinstance(c.args[0], ast.Constant) and c.args[0].value == ":"):
+        x = norm(c.func.value)
+        nsplit += 1
+        gs = guards_of(gcf, nd)
+
+        def last_not_bracket(t, pol, x=x):
+            if isinstance(t, ast.Compare) and len(t.ops) == 1 and isinstance(t.ops[0], ast.Eq) and norm(t.left) == x + "[-1]" and isinstance(t.comparators[0], ast.Constant) and t.comparators[0].value == "]":
+                return not pol
+            if isinstance(t, ast.Call) and isinstance(t.func, ast.Attribute) and t.func.attr == "endswith" and norm(t.func.value) == x and t.args and isinstance(t.args[0], ast.Constant) and t.args[0].value == "]":
+                return not pol
+            return False
+        if any(last_not_bracket(t, pol) for (t, pol) in gs):
+            ctx.r.ok(rid, "%s is split at its last ':' only when it does not end in ']'" % x, f.loc(nd.ast))
+        else:
+            ctx.r.violation(rid, key_of(f, None, "ipv6-port-test::" + x), "%s is split into host and port without the test that it does not *end* in ']' (guards: %s): `[v6]:port` keeps its port in the host name, or a bare `[v6]` literal is cut at a colon inside the address" % (x, [norm(t)[:30] for (t, _p) in gs][-3:]), f.loc(nd.ast))
+    ctx.r.floor(rid, nsplit, 2, "host:port / addr:port splits")
     # Forwarded: reverse walk with or-fill
     loops = [n for n in walk_own(f.node) if isinstance(n, ast.For) and "proxies" in norm(n.iter)]
     ok = False
